@@ -1,3 +1,10 @@
 #!/bin/sh
-# placeholder until the framework exists
-exit 0
+# Build the framework from files on disk only (offline): Lean model + theorems + driver, Rust harness.
+set -e
+cd /verif
+export CARGO_NET_OFFLINE=true CARGO_TARGET_DIR=/verif/build/target
+export RUSTFLAGS="--cfg velikodniy_cgt_tool_verif"
+mkdir -p build evidence replays
+python3 tools/extract.py
+(cd lean && lake build)
+(cd harness && cargo build --offline)
